@@ -484,7 +484,24 @@ def step (ds : DS) (j : Json) : E (DS × Out) := do
       | [] => []
       | d :: _ => [s!"C13 ledger-changed-although-no-verified-better-chain-was-offered impl={d}"]
     else []
-  let propsAll := if ds.monitorsOn then props ++ c12 ++ c13 else props
+  -- C06 for a round during which the node's own tick produced a block: the round never leaves a chain shorter than
+  -- the one it found when it committed (the model's chain after the tick)
+  let c06tick : List String :=
+    if opOrig == "synctick" && info.any (fun kv => kv.1 == "synctick" && kv.2 == "round-gave-up") &&
+        o.chain.length < chosen.led.blocks.length then
+      [s!"C06 adopted-a-shorter-chain (a block produced during the round was dropped) impl={o.chain.length} before-commit={chosen.led.blocks.length}"]
+    else []
+  -- C11 for a produced block: every pooled transaction that is valid at its turn of the shuffle (the greedy selection
+  -- the C11 theorems are about, computed by the model on the same shuffle) is in the implementation's block
+  let c11left : List String :=
+    if op == "tick" && produced then
+      match chosen.led.blocks.getLast?, o.chain.getLast? >>= ds.blocks.get? with
+      | some mb, some ib =>
+        ((mb.txs.filter (fun t => !t.hasReward && !(ib.txs.any (fun x => x.id == t.id)))).map
+          (fun t => s!"C11 pooled-transaction-valid-at-its-turn-left-out-of-the-produced-block tx={t.id}"))
+      | _, _ => []
+    else []
+  let propsAll := if ds.monitorsOn then props ++ c12 ++ c13 ++ c06tick ++ c11left else props
   let notes := ds.notes.map (fun s => "C15 " ++ s) ++
     (if ds.monitorsOn then (info.filter (fun kv => kv.1 == "prop")).map (·.2) else [])
   let info := info.filter (fun kv => kv.1 != "prop")
